@@ -1,6 +1,7 @@
 /-
   C05 — Distilled HTML is inert: no scripts, styles, handlers or id/class attributes.
 -/
+import Distill.Props.DomHelpers
 import Distill.Props.RenderProps
 import Distill.Proofs.Render
 import Distill.Gen.Funcs
